@@ -150,9 +150,11 @@ class C05:
         # same way under every setting - that is some other property's business; C05 only demands that the outcome
         # does not depend on the settings.
         rout = render_outcome(wl["family"], ret, False, False, False)
+        rtext = LAST_RENDER[0] if rout == "ok" else None
         log.add("ref", b.lower_bound, b.upper_bound, core.digest_of(script), ec, rout)
         return {"cost": (b.lower_bound, b.upper_bound), "script": script, "ann": ann, "edited_cost": ec,
-                "compound": isinstance(root, CompoundEdit), "equal": wl["a"] == wl["b"], "render": rout}
+                "compound": isinstance(root, CompoundEdit), "equal": wl["a"] == wl["b"], "render": rout,
+                "render_text": rtext}
 
     # ------------------------------------------------------------------ execution
     def run_case(self, case):
@@ -237,6 +239,7 @@ class C05:
         log.add("outcome", cost, core.digest_of(script))
         self._compare("scheduled", cost, script, ref)
         s.check_resumed_listings()
+        s.check_non_zero_answers()
         # render: colour / tty / status are drivers too (has_non_zero_cost, edits() while printing)
         s.root.on_diff(s.ret)
         ann = sched.annotations(s.ret, s.paths)
@@ -249,7 +252,12 @@ class C05:
             raise Violation("render-outcome-differs", "scheduled",
                             f"rendering with ansi_color={ansi_color} tty={run['tty']} quiet={run['render_quiet']} after "
                             f"this schedule ended as {rout!r}, but as {ref['render']!r} after the reference run")
-        text = ""
+        text = LAST_RENDER[0] if rout == "ok" else ""
+        if rout == "ok" and ansi_color is False and ref.get("render_text") is not None and text != ref["render_text"]:
+            # same documents, same script, same (plain) printer settings - only the call history differs
+            raise Violation("render-differs", "scheduled",
+                            f"the plain rendering after this schedule differs from the rendering after the reference "
+                            f"run:\n got {text[:500]!r}\n ref {ref['render_text'][:500]!r}")
         if run["ansi"]:
             counters["probe.rendered_colour"] = counters.get("probe.rendered_colour", 0) + 1
         if run["tty"]:
@@ -415,10 +423,13 @@ class _Fixed:
         return 0.99
 
 
+LAST_RENDER = [None]
+
+
 def render_outcome(family, ret, ansi, tty, quiet):
     """'ok' or the exception site; harness exceptions propagate."""
     try:
-        render(family, ret, ansi, tty, quiet)
+        LAST_RENDER[0] = render(family, ret, ansi, tty, quiet)
         return "ok"
     except core.RunTimeout:
         raise
